@@ -1,8 +1,38 @@
-//! C06 correspondence streams (stub).
-use crate::util::Opts;
+//! C06: control flow, lengths and timing: every first byte / CB byte, PC and SP on region boundaries and wrap,
+//! all displacements; instructions that straddle region ends; undefined opcodes.
+use crate::cpucase::*;
+use crate::util::{Opts, Rng};
 use std::io::Write;
 
-pub fn run(sub: &str, _opts: &Opts, _w: &mut dyn Write) {
-  eprintln!("stream c06.{} not implemented", sub);
-  std::process::exit(2);
+const IPS: [u16; 22] = [0x0000, 0x0001, 0x00fd, 0x3ffc, 0x3ffd, 0x3ffe, 0x3fff, 0x4000, 0x7ffd, 0x7ffe, 0x7fff, 0xc000, 0xcffd,
+  0xcffe, 0xcfff, 0xd000, 0xdffd, 0xff80, 0xff81, 0xfffc, 0xfffd, 0xfffe];
+const SPS: [u16; 16] = [0x0000, 0x0001, 0x0002, 0x8000, 0xc000, 0xc001, 0xd000, 0xdfff, 0xe000, 0xfe00, 0xff10, 0xff80, 0xfffe, 0xffff, 0xff0f, 0xa000];
+
+pub fn run(_sub: &str, opts: &Opts, w: &mut dyn Write) {
+  let mut rng = Rng::new(opts.seed ^ 0xc06);
+  let (shard, nshards) = opts.shard();
+  let reps = if opts.thorough { 40 } else { 2 };
+  let mut idx = 0usize;
+  // every first byte (incl. the undefined ones) and every CB byte at every boundary PC
+  for b0 in 0..=255u16 { for &ip in IPS.iter() { for rep in 0..reps {
+    idx += 1;
+    if idx % nshards != shard { continue; }
+    let b1 = if b0 == 0xcb { rng.u8() } else { byte(&mut rng) };
+    let b2 = byte(&mut rng);
+    let mut c = gen_case(&mut rng, [b0 as u8, b1, b2], ip, (0x03, 1, 3));
+    if rep % 2 == 0 { c.regs[4] = *rng.pick(&SPS) as u32; }
+    run_case("c06", &c, w);
+  }}}
+  // control instructions: all displacements / targets, both flag outcomes
+  let ctl: [u8; 33] = [0x18, 0x20, 0x28, 0x30, 0x38, 0xc2, 0xc3, 0xca, 0xd2, 0xda, 0xe9, 0xc4, 0xcc, 0xcd, 0xd4, 0xdc,
+    0xc0, 0xc8, 0xc9, 0xd0, 0xd8, 0xd9, 0xc7, 0xcf, 0xd7, 0xdf, 0xe7, 0xef, 0xf7, 0xff, 0x76, 0x10, 0xfb];
+  for &b0 in ctl.iter() { for d in 0..=255u16 { for rep in 0..reps {
+    idx += 1;
+    if idx % nshards != shard { continue; }
+    let ip = if rep == 0 { *rng.pick(&IPS) } else { 0xc000 + rng.below(0x1ff0) as u16 };
+    let b2 = byte(&mut rng);
+    let mut c = gen_case(&mut rng, [b0, d as u8, b2], ip, (0x03, 1, 3));
+    c.regs[4] = if rng.chance(1, 2) { *rng.pick(&SPS) as u32 } else { c.regs[4] };
+    run_case("c06", &c, w);
+  }}}
 }
